@@ -156,7 +156,7 @@ def foreign_override(lang):
     return m_list("typeshare", [m_list(other, [m_nv("type", lit_s("Ov"))])])
 
 
-def make_items(entries, tag="", lang=None):
+def make_items(entries, tag="", lang=None, names=None):
     """entries: list of (position, chain, leaf).  Fields of the same kind share one struct / one enum variant.
     Returns (items, description) where the description lists what the parser will see."""
     gens = ["T"] if any(leaf == "T" for _, _, leaf in entries) else []
@@ -178,10 +178,10 @@ def make_items(entries, tag="", lang=None):
             desc["fields"].append((tree, False, gens))
             continue
         if pos in ("field", "field_default"):
-            sfields.append(field([DEFAULT_ATTR] if pos.endswith("default") else [], "f%d" % n, syn))
+            sfields.append(field([DEFAULT_ATTR] if pos.endswith("default") else [], names[n] if names else "f%d" % n, syn))
             desc["fields"].append((tree, pos.endswith("default"), gens))
         elif pos in ("variant_field", "variant_field_default"):
-            vfields.append(field([DEFAULT_ATTR] if pos.endswith("default") else [], "f%d" % n, syn))
+            vfields.append(field([DEFAULT_ATTR] if pos.endswith("default") else [], names[n] if names else "f%d" % n, syn))
             desc["fields"].append((tree, pos.endswith("default"), gens))
         elif pos == "payload":
             payloads.append((syn, tree))
@@ -223,8 +223,8 @@ NEEDY = {"attrs": [], "items": [{"kind": "struct", "attrs": [TS_ATTR], "ident": 
                                                       field([], "nothing", ("tuple", [])), field([], "t", t_path("T"))])}]}
 
 
-def make_case(entries, lang, multi, trigger_first=True, cfg=None, needy=False):
-    items, desc = make_items(entries, lang=lang)
+def make_case(entries, lang, multi, trigger_first=True, cfg=None, needy=False, names=None):
+    items, desc = make_items(entries, lang=lang, names=names)
     f = {"attrs": [], "items": items}
     cfg = dict(CFG[lang] if cfg is None else cfg)
     if not multi:
@@ -717,6 +717,10 @@ REGRESSIONS = [
 ]
 
 
+RESERVED_NAMES = ["from", "global", "import", "is", "lambda", "not", "or", "pass", "with", "and", "del", "def", "class", "raise",
+                  "object", "val", "var", "func", "package", "interface", "function", "new", "this"]
+
+
 def language_cases(lang, thorough, depth, mdepth):
     """the batches of one language: (label, cases)"""
     leaves = LEAVES + (PY_ONLY_LEAVES if lang == "python" else [])
@@ -746,6 +750,11 @@ def language_cases(lang, thorough, depth, mdepth):
         cases.append(make_case([("alias", c1, l1), ("payload", c2, l2_), ("variant_field_default", c1, l2_)], lang,
                                len(cases) % 3 == 0, trigger_first=len(cases) % 2 == 0))
     yield "together", cases
+    # field *names* that alone force a decoration (round 15): identifiers that are legal in Rust and reserved in a target language,
+    # one per file, with no other field that would bring the helper in
+    yield "reserved-names", [make_case([(pos, ch, leaf)], lang, m, names=[nm])
+                             for nm in RESERVED_NAMES for ch in [(), ("Vec",)] for leaf in ["String", "u8"]
+                             for pos in ("field", "variant_field") for m in (False, True)]
     if lang == "kotlin":
         yield "no-package", [make_case([(pos, ch, leaf)], lang, m, cfg={"package": ""})
                              for ch in chains(1) for leaf in ["u8", "String", "()"] for pos in POSITIONS for m in (False, True)]
